@@ -21,11 +21,25 @@ from a fresh frame.  Checked on the real output:
     model's global total bounds = the real total_bounds, and the three oracle contracts
     of Spec/DaskSpec.v hold of what Dask returned.
 
+  * Model/PackFloat.v (c09_float_case, binary64 on Coq's primitive floats) evaluated by the
+    kernel on EVERY packing: the index value of every row equals the key the kernel computes
+    from the bounds rows of the input partitions alone (per-partition bounds -> nanmin / nanmax
+    -> widening -> (v - lo) * (n / width) -> clips -> Hilbert curve), bit for bit, so the
+    reference for the key values does not rest on the library's own hilbert_distance.
+
+Coordinates (harness/c09_float.py): small integers / half-integers (the exact model's regime) AND
+floats: many-digit decimals in a narrow window, decimal grids whose extent is 2^p spacings,
+centres on / next to the cell edges of the frame's own grid, extents of a few ulps at 1e6 .. 1e16,
+magnitudes of 1e-11, windows across +-0.0 - through the plain path and through provenances
+(ddf.to_parquet -> read_parquet_dask with bounds from the metadata, pack_partitions_to_parquet,
+persist, repartition, warm index -> filter).  Large frames (600, 70 000, 140 000 rows of points /
+lines on near-tie grids, 4 numba threads) are packed from one input partition and from several
+smaller ones on both sides of 512 / 50 000 / 2^16 / 2^17 rows: same keys, and the kernel's.
+The degenerate classes (all rows at one key, p = 1, 1..3 rows with 8 partitions requested) are
+run with the property's expectation.
+
 When the call or the computation raises ValueError (Dask cannot cut a frame whose rows
 all share one key into several partitions) nothing is claimed: counted.
-The key VALUES are not compared with a Coq model: coq/Model has no Data2Coord model of
-`_data2coord` yet; the independent recomputation above stands in (property C08 is about
-the values).
 """
 import numpy as np
 
@@ -39,8 +53,10 @@ ANCHOR_FILES = ['spatialpandas/dask.py', 'spatialpandas/geometry/base.py',
                 'spatialpandas/geoseries.py']
 TRUSTED = ['Dask set_index / repartition: oracle contracts of Spec/DaskSpec.v (permutation of rows, '
            'sorted keys, requested count), checked on the real Dask by this run, never proved',
-           'GeoSeries.hilbert_distance on the whole pandas frame as the reference for key values '
-           '(property C08)']
+           'key values: Model/PackFloat.v + Model/FloatData2Coord.v on Coq primitive floats (the '
+           "kernel's binary64 operations = the machine's), compared bit for bit with the index of every "
+           'packed frame; GeoSeries.hilbert_distance on the whole pandas frame is a second, redundant '
+           'reference']
 
 IMPORTS = 'Model.Num Model.Bounds Model.DaskModel Model.Pack'
 CASE_TY = 'list (list (nat * bbox * N)) * list (list (nat * N)) * N'
@@ -585,7 +601,12 @@ def run(rep):
                 'every split of 6 rows into consecutive input partitions (+ empty input partitions, '
                 'presorted input, random frames of <= 9 rows) x npartitions 1..8 / default x p in '
                 '{1,5,15,20} (+ histories: warm cache -> filter -> pack; pack -> set_geometry / filter -> '
-                'pack again, vs a fresh frame of the same rows); one evaluation = one computed packing; '
+                'pack again, vs a fresh frame of the same rows); coordinates: small integers and floats '
+                '(decimal windows, decimal grids of 2^p spacings, centres on cell edges +- 2 ulps, extents of a '
+                'few ulps at 1e6..1e16, 1e-11, across +-0.0), also through to_parquet -> read_parquet_dask / '
+                'pack_partitions_to_parquet / persist / repartition; frames of 600 / 70 000 / 140 000 rows from '
+                'one and from several input partitions (4 numba threads); the index of every packed frame is '
+                'compared with Model/PackFloat.v (binary64) in the kernel; one evaluation = one computed packing; '
                 'non-trivial = at least two distinct keys; distinct = distinct '
                 '(frame, partitioning, npartitions, p)')
     ctx = {'rep': rep, 'cases': [], 'results': [], 'metas': [], 'unclaimed': [],
